@@ -82,7 +82,7 @@ def _quiet(fn):
 
 
 def build(case):
-    home = protokit.clone_home(protokit.template_home())
+    home = protokit.clone_home(protokit.template_home(uploaded=not case.get("fresh_keys")))
     protokit.use_home(home)
     profile = YowProfile(protokit.OWN_PHONE)
     upper = (AxolotlControlLayer, YowParallelLayer((AxolotlSendLayer, AxolotlReceivelayer)),
@@ -133,7 +133,9 @@ def _run(case, out, rig):
     reconnect_opt = bool(case.get("reconnect", True))
 
     m = {"state": "down", "authed": False, "pending_reconnect": False, "outstanding": [], "established": 0, "attempts": 0,
-         "successes": 0, "failures": 0, "stream_errors": 0, "keepalive_decision": False, "held": None, "cut_in_handshake": 0, "old_pings": []}
+         "successes": 0, "failures": 0, "stream_errors": 0, "keepalive_decision": False, "held": None, "cut_in_handshake": 0, "old_pings": [],
+         "unsent": bool(case.get("fresh_keys")), "rejected": 0}
+    corrupt = list(case.get("corrupt", []))
     late = list(case.get("late", []))
     rig.redundant_down = bool(case.get("redundant_down"))
     rig.connect_outcomes.extend(case.get("outcomes", []))   # consumed by the dispatcher double, one per connection attempt
@@ -213,11 +215,30 @@ def _run(case, out, rig):
             return fail("login_attempt_without_prologue", {"step": step, "head": b[:8].hex()})
         if b.count(b"WA\x04\x00") != 1:
             return fail("login_attempts_per_connection", {"step": step, "prologues": b.count(b"WA\x04\x00")})
+        bad = bool(corrupt and corrupt.pop(0))
+        rig.server.corrupt_hello = bad
         try:
             rig.server.feed(b)
         except TR.ProtocolViolation as e:
             return fail("fresh_login_rejected_by_server", {"step": step, "problem": str(e)})
+        finally:
+            rig.server.corrupt_hello = False
         o = rig.server.take_out()
+        if bad and o:
+            # the server's reply does not authenticate: the login failure is delivered to the application and the connection closed
+            if late:
+                late.pop(0)
+            n_f = len([e for e in above.got if getattr(e, "getTag", lambda: "")() == "failure"])
+            d_ = rig.current
+            rig.deliver(o)
+            rig.shuttle(only=d_)
+            out.label("handshake_reply_rejected")
+            m["rejected"] += 1
+            went_down()
+            if len([e for e in above.got if getattr(e, "getTag", lambda: "")() == "failure"]) != n_f + 1:
+                return fail("rejected_handshake_not_delivered_as_one_failure",
+                            {"step": step, "delivered": len([e for e in above.got if getattr(e, "getTag", lambda: "")() == "failure"]) - n_f})
+            return True
         if not o:
             return fail("fresh_login_incomplete", {"step": step, "op": op, "problems": ["no server reply to the client's opening bytes"],
                                                    "state": rig.server.state, "client_bytes": len(b)})
@@ -373,10 +394,30 @@ def _run(case, out, rig):
                 continue
             n_auth = count(seen_below, YowAuthenticationProtocolLayer.EVENT_AUTHED)
             n_succ = len([e for e in above.got if getattr(e, "getTag", lambda: "")() == "success"])
+            frames_before = len(rig.server.frames)
             server_stanza(("success", {"creation": "1500000000", "props": "4", "t": "1500000001", "location": "atn"}, None))
             m["authed"] = True
             m["successes"] += 1
             out.label("success")
+            if m["unsent"]:
+                # keys that were never uploaded: the login was passive, the upload follows the success; once it is confirmed the
+                # library closes the connection itself and connects again (not passive)
+                ups = []
+                for f in rig.server.frames[frames_before:]:
+                    t = R.decode(f)
+                    if t[0] == "iq" and t[1].get("type") == "set" and t[1].get("xmlns") == "encrypt":
+                        ups.append(t[1]["id"])
+                if len(ups) != 1:
+                    fail("key_upload_after_passive_login", {"step": step, "uploads": len(ups)})
+                    return out
+                if (op[1] if len(op) > 1 else 0) % 3 != 2:
+                    server_stanza(("iq", {"type": "result", "id": ups[0], "from": "s.whatsapp.net"}, None))
+                    m["unsent"] = False
+                    went_down()
+                    m["pending_reconnect"] = True
+                    out.label("key_upload_confirmed_reconnect")
+                else:
+                    out.label("key_upload_unanswered")
             if count(seen_below, YowAuthenticationProtocolLayer.EVENT_AUTHED) != n_auth + 1:
                 fail("authed_not_announced_once", {"step": step, "delta": count(seen_below, YowAuthenticationProtocolLayer.EVENT_AUTHED) - n_auth})
                 return out
@@ -416,6 +457,11 @@ def _run(case, out, rig):
             for _ in range(interval):
                 rig.sched.advance(1.0)
                 rig.shuttle(only=d)
+            pings = []
+            for f in rig.server.frames[before:]:
+                t = R.decode(f)
+                if t[0] == "iq" and t[1].get("xmlns") == "w:p":
+                    pings.append(t[1]["id"])
             if m["state"] == "up" and m["authed"]:
                 m["keepalive_decision"] = m["keepalive_decision"] or bool(m["outstanding"])
                 if m["outstanding"]:
@@ -423,16 +469,26 @@ def _run(case, out, rig):
                     went_down()
                     out.label("keepalive_timeout")
                 else:
-                    pings = []
-                    for f in rig.server.frames[before:]:
-                        t = R.decode(f)
-                        if t[0] == "iq" and t[1].get("xmlns") == "w:p":
-                            pings.append(t[1]["id"])
                     if len(pings) != 1:
                         fail("keepalive_ping_count", {"step": step, "pings": len(pings)})
                         return out
                     m["outstanding"] = pings
                     out.label("keepalive_ping")
+            elif m["state"] == "up":
+                # not logged in on this connection: the statement does not say whether a keep-alive is running (the library's own
+                # reconnect after a key upload keeps the previous one).  What it does say: no close while every ping is answered.
+                still_up = True
+                for e in announced:
+                    still_up = True if e == EV_CONNECTED else False if e == EV_DISCONNECTED else still_up
+                if not still_up:
+                    if not m["outstanding"]:
+                        fail("closed_by_keepalive_although_no_ping_was_unanswered", {"step": step})
+                        return out
+                    went_down()
+                    out.label("keepalive_timeout_before_login")
+                elif pings:
+                    m["outstanding"] = m["outstanding"] + pings
+                    out.label("keepalive_ping_before_login")
         elif kind == "pong":
             if m["state"] != "up" or not m["outstanding"]:
                 continue
@@ -521,7 +577,7 @@ _partial = st.sampled_from([0, 0, 0, 1, 2, 3, 5, 20])
 def op_strategy():
     return st.one_of(
         st.just(["connect"]), st.just(["connect"]), st.tuples(st.just("peer_close"), _partial).map(list), st.just(["disconnect"]),
-        st.just(["success"]), st.just(["success"]),
+        st.tuples(st.just("success"), st.integers(0, 2)).map(list), st.tuples(st.just("success"), st.integers(0, 2)).map(list),
         st.tuples(st.just("failure"), st.sampled_from(["401", "403", "not-authorized"]), _partial).map(list),
         st.tuples(st.just("stream_error"), st.sampled_from(["conflict", "ack", "xml-not-well-formed"]), st.booleans(), _partial).map(list),
         st.just(["tick"]), st.just(["tick"]),
@@ -568,6 +624,8 @@ def case_strategy(ops=None):
                 "passive": draw(st.booleans()),
                 "redundant_down": draw(st.booleans()),
                 "late": draw(st.lists(st.booleans(), min_size=0, max_size=6)),
+                "fresh_keys": draw(st.sampled_from([False, False, True])),
+                "corrupt": draw(st.lists(st.sampled_from([False, False, False, True]), min_size=0, max_size=5)),
                 "choices": draw(st.lists(st.integers(0, 5), min_size=n, max_size=n)),
                 "preempt": draw(st.lists(st.tuples(st.integers(0, 1500), st.integers(0, 3)).map(list), min_size=0, max_size=3)) if n == 0 else []}
     return build_()
@@ -588,6 +646,10 @@ def _enum_basic():
                           ["connect"], ["success"], ["tick"]])
     yield dict(base, ops=[["connect"], ["success"], ["tick"], ["peer_close"], ["connect"], ["success"], ["tick"], ["stale_pong", 0], ["tick"], ["loop"],
                           ["connect"], ["success"], ["tick"], ["pong", 0], ["stale_pong", 1], ["tick"]])
+    yield dict(base, fresh_keys=True, ops=[["connect"], ["success", 0], ["success", 0], ["tick"], ["pong", 0], ["peer_close", 0], ["connect"], ["success", 0]])
+    yield dict(base, fresh_keys=True, ops=[["connect"], ["success", 2], ["peer_close", 0], ["connect"], ["success", 0], ["success", 0], ["tick"]])
+    yield dict(base, corrupt=[True, False, True], ops=[["connect"], ["loop"], ["connect"], ["success"], ["stream_error", "ack", False, 0], ["loop"], ["connect"],
+                                                        ["success"]])
     yield dict(base, late=[True, True], ops=[["connect"], ["close_and_send"], ["loop"], ["connect"], ["success"], ["stream_error", "ack", False], ["success"]])
 
 
